@@ -1,0 +1,7 @@
+//go:build verif
+// +build verif
+
+package bfe_tls
+
+// VerifRemovePadding exposes removePadding to the out-of-tree verification harness (build tag verif).
+func VerifRemovePadding(payload []byte) ([]byte, byte) { return removePadding(payload) }
